@@ -75,6 +75,11 @@ def check(ctx):
                 t += [ord(DIG[base])] if base < 36 else [ord("{")]
                 t += [ord("1")]
             lines.append("Ato %s %s %d" % (fn, fmt(t), base))
+        # the "any terminator character" quantifier: every byte value after a short number
+        for term in range(1, 256):
+            for base in ([2, 10, 16, 36] if fn in ("u32", "i64") or ctx.thorough else [rng.choice([2, 8, 10, 16, 36])]):
+                body = render(rng.choice([0, 1, base - 1, base, 5 * base + 1]), base)
+                lines.append("Ato %s %s %d" % (fn, fmt([ord(c) for c in body] + [term] + ([49] if rng.random() < 0.5 else [])), base))
         for txt in ["", "-", "--1", "+1", " 1", "x", "-x", "0", "00", "0x10", "9", "a", "A", "z", "Z", "g", "1g", "fF", "7f", "80", "ff"]:
             for base in [2, 8, 10, 16, 36]:
                 lines.append("Ato %s %s %d" % (fn, fmt([ord(c) for c in txt]), base))
